@@ -404,18 +404,30 @@ int vf_mutex_trylock(void *m) {
   uint32_t *w = (uint32_t *)m;
   int r = 16;
   __CPROVER_atomic_begin();
-  if (*w == 0) { *w = 1; r = 0; }
+  if (*w == 0) {
+    *w = 1; r = 0;
+#if defined(VF_SEQ) && defined(VF_RACE)
+    vf_race_rmw(m, VF_ACQ);
+#endif
+  }
   __CPROVER_atomic_end();
   return r;
 }
 int vf_mutex_unlock(void *m) {
   uint32_t *w = (uint32_t *)m;
+#if defined(VF_SEQ) && defined(VF_RACE)
+  vf_race_store(m, VF_REL);
+#endif
   __CPROVER_atomic_begin();
   *w = 0;
   __CPROVER_atomic_end();
   return 0;
 }
 int vf_personality(int a, int b, uint64_t c, void *d, void *e) { return 0; }
+#if !(defined(VF_SEQ) && defined(VF_RACE))
+void vf_race_write(void *p) { }
+void vf_race_read(void *p) { }
+#endif
 void *vf_getenv(void *name) { return 0; }
 uint64_t vf_strtoul(void *s, void *end, int base) { return (uint64_t)vf_strtol(s, end, base); }
 #ifndef VF_HW
@@ -426,9 +438,13 @@ unsigned vf_hw_concurrency(void) { return VF_HW; }
  * harness-provided hook); the thread's body is run by a model thread of the harness */
 uint32_t vf_threads_started;
 void vf_std_thread_state_dtor(void *st) { }
+void vf_std_thread_state_run(void *st) { } /* vtable slot of std::thread::_State_impl<..>::_M_run, never called */
 void vf_std_thread_start(void *thr, void *state_uptr, void *dep) {
   vf_threads_started++;
   *(uint64_t *)thr = vf_threads_started;
+#if defined(VF_SEQ) && defined(VF_RACE)
+  if (vf_threads_started < VF_NTHREADS) vf_race_spawn((int)vf_threads_started); /* start edge */
+#endif
   void *st = *(void **)state_uptr;
   *(void **)state_uptr = 0;
 #ifdef VF_HAVE_THREAD_MODEL
